@@ -194,6 +194,91 @@ fn run_sweep(alpha: &[Member<Id>], depth: usize, label: &str, rep: &mut Report) 
     json!({"sweep": label, "letters": alpha.len(), "max_length": depth, "sequence_prefixes_checked": total.nodes, "idempotence_checks": total.idempotence, "whole_sequence_in_one_call_checks": total.batch, "distinct_membership_states": n_states})
 }
 
+/// The view does not depend on HOW an update is delivered: from every state
+/// reached by <= 2 letters, every letter is delivered (a) through apply_many,
+/// (b) as the payload of a Gossip datagram from a third party, (c) as the
+/// payload of a Gossip datagram from its own subject, whose header says
+/// "alive at incarnation h" for h in {the update's, the update's + 1}. The
+/// expected view is the reference join of everything said, header included.
+fn routes(alpha: &[Member<Id>], rep: &mut Report) -> serde_json::Value {
+    use foca::Message;
+    let me = id(9, 0);
+    let third = id(7, 0);
+    let codec = FixCodec::default();
+    let mut starts: Vec<(F, RefState, Vec<Member<Id>>)> = vec![(fresh(me), RefState::new(), vec![])];
+    let mut frontier = starts.clone();
+    for _ in 0..2 {
+        let mut next = Vec::new();
+        for (f, r, seq) in &frontier {
+            for u in alpha {
+                let mut c = f.clone();
+                run_event(&mut c, &Ev::Apply(vec![u.clone()], true), &[]);
+                let mut r2 = r.clone();
+                ref_join(&mut r2, u);
+                let mut s2 = seq.clone();
+                s2.push(u.clone());
+                next.push((c, r2, s2));
+            }
+        }
+        starts.extend(next.iter().cloned());
+        frontier = next;
+    }
+    let results: Vec<Result<u64, String>> = starts
+        .par_iter()
+        .map(|(f, r, seq)| {
+            let mut n = 0u64;
+            let show = |seq: &Vec<Member<Id>>| seq.iter().map(show_member).collect::<Vec<_>>().join(",");
+            for u in alpha {
+                // (b) third party
+                {
+                    let mut c = f.clone();
+                    let d = dgram(&codec, third, 0, me, Message::Gossip, Some(std::slice::from_ref(u)), &[]);
+                    let out = run_event(&mut c, &Ev::Data(d), &[0, 0, 0, 0]);
+                    let mut want = r.clone();
+                    ref_join(&mut want, &Member::new(third, 0, State::Alive));
+                    ref_join(&mut want, u);
+                    n += 1;
+                    if out.panic.is_some() || !out.res.is_ok() || view_ref(&c) != want {
+                        return Err(format!("after [{}], {} relayed by a third party gives {} ({:?}); the reference join says {:?}", show(seq), show_member(u), View::of(&c).show(), out.res, want));
+                    }
+                }
+                // (c) the subject itself
+                let known = r.get(&u.id().addr);
+                let accepted = match known {
+                    None => true,
+                    Some((gen, down, _, _)) => *gen < u.id().gen || (*gen == u.id().gen && !*down),
+                };
+                if !accepted {
+                    continue;
+                }
+                for h in [u.incarnation(), u.incarnation().saturating_add(1)] {
+                    let mut c = f.clone();
+                    let d = dgram(&codec, *u.id(), h, me, Message::Gossip, Some(std::slice::from_ref(u)), &[]);
+                    let out = run_event(&mut c, &Ev::Data(d), &[0, 0, 0, 0]);
+                    let mut want = r.clone();
+                    ref_join(&mut want, &Member::new(*u.id(), h, State::Alive));
+                    ref_join(&mut want, u);
+                    n += 1;
+                    if out.panic.is_some() || !out.res.is_ok() || view_ref(&c) != want {
+                        return Err(format!("after [{}], {} said by its own subject (header incarnation {h}) gives {} ({:?}); the reference join says {:?}", show(seq), show_member(u), View::of(&c).show(), out.res, want));
+                    }
+                }
+            }
+            Ok(n)
+        })
+        .collect();
+    let mut total = 0u64;
+    for r in results {
+        match r {
+            Ok(n) => total += n,
+            Err(e) => rep.violate("c01:route-sensitive", e, json!({"engine": "e3-c01", "clause": "delivery route"})),
+        }
+    }
+    rep.transitions += total;
+    rep.evaluations += total;
+    json!({"start_states": starts.len(), "datagram_deliveries_checked": total})
+}
+
 /// States reachable on an instance with own identity `me` by sequences of
 /// length <= 3 over `alpha` (as record lists).
 fn reachable_states(me: Id, alpha: &[Member<Id>], depth: usize) -> Vec<Vec<Member<Id>>> {
@@ -309,6 +394,8 @@ pub fn c01(tier: &str) -> Report {
         sweeps.push(run_sweep(&one_addr, 5, "length 5, one address x 3 generations x incarnations {0,1}", &mut rep));
     }
     rep.set("sequence_sweeps", json!(sweeps));
+    let rt = routes(&a_small, &mut rep);
+    rep.set("delivery_routes", rt);
     let ex = exchange(&mut rep, th);
     rep.set("state_exchange", ex);
     rep.distinct_nontrivial = rep.states;
